@@ -3,6 +3,7 @@
 //! Native tier: programs x schedules in the simulator, with the counting
 //! allocator as memory oracle, a reference-answer model and equality laws.
 
+pub mod golden;
 pub mod interp;
 pub mod prog;
 
@@ -48,6 +49,8 @@ struct Run {
     last_drop_by_other_thread: u64,
     max_shared: i64,
     answers_checked: u64,
+    answers_specified: u64,
+    answers_golden: u64,
     eq_checked: u64,
     mem_checks: u64,
     fp: Fnv,
@@ -55,6 +58,8 @@ struct Run {
     bits: HashMap<usize, u32>,
     /// Zones whose handle count changed since the last memory check.
     dirty: Vec<u32>,
+    api_panics: u64,
+    api_panic_sample: Option<String>,
 }
 
 // Every simulated thread is a real OS thread (so that thread-local state
@@ -367,6 +372,26 @@ impl Env for NativeEnv {
                 "answer",
                 format!("query {q} at instant {t} on a {spec:?} handle returned {got:?}, reference says {want:?}"),
             );
+            return;
+        }
+        if let Some(w) = golden::specified(spec, q, t) {
+            with_run(|r| r.answers_specified += 1);
+            if w != got {
+                violate(
+                    "answer_specified",
+                    format!("query {q} at instant {t} on a {spec:?} handle returned {got:?}, documented behaviour is {w:?}"),
+                );
+                return;
+            }
+        }
+        if let Some(w) = golden::recorded(spec, q, t) {
+            with_run(|r| r.answers_golden += 1);
+            if w != got {
+                violate(
+                    "answer_golden",
+                    format!("query {q} at instant {t} on a {spec:?} handle returned {got:?}, the recorded answer of the pinned tree is {w:?}"),
+                );
+            }
         }
     }
 
@@ -430,6 +455,16 @@ impl Env for NativeEnv {
     fn checkpoint(&mut self, what: &'static str) -> bool {
         check_memory(what);
         !aborting()
+    }
+
+    fn api_panic(&mut self, _api: &'static str) {
+        let msg = sim::with_rt(|rt| rt.last_panic.take()).unwrap_or_default();
+        with_run(|r| {
+            r.api_panics += 1;
+            if r.api_panic_sample.is_none() {
+                r.api_panic_sample = Some(msg);
+            }
+        });
     }
 
     fn no_alloc_begin(&mut self) {
@@ -599,11 +634,15 @@ fn run_case(case: Arc<Case>, sched: &SchedSpec, want_log: bool) -> SchedOutcome 
             last_drop_by_other_thread: 0,
             max_shared: 0,
             answers_checked: 0,
+            answers_specified: 0,
+            answers_golden: 0,
             eq_checked: 0,
             mem_checks: 0,
             fp: Fnv::new(),
             bits: HashMap::new(),
             dirty: vec![],
+            api_panics: 0,
+            api_panic_sample: None,
         });
     }
     let baton = Arc::new(Baton::new(case.threads.len(), sched));
@@ -782,6 +821,7 @@ impl Prop for C20 {
         static WARM: std::sync::Once = std::sync::Once::new();
         WARM.call_once(|| {
             warm_up();
+            golden::load();
             alloc::enable();
         });
         sim::install_panic_hook();
@@ -821,7 +861,10 @@ impl Prop for C20 {
             stats.add("handles.sent_between_threads", run.sends);
             stats.add("handles.received", run.recvs);
             stats.add("oracle.answers_checked", run.answers_checked);
+            stats.add("oracle.answers_checked_against_documented_constants", run.answers_specified);
+            stats.add("oracle.answers_checked_against_golden_table", run.answers_golden);
             stats.add("oracle.eq_checked", run.eq_checked);
+            stats.add("ignored.zoned_arithmetic_api_panics", run.api_panics);
             stats.add("oracle.memory_model_checks", run.mem_checks);
             stats.add("zones.instances", run.zones.len() as u64);
             stats.add(
@@ -915,5 +958,5 @@ fn kind_key(k: &str) -> &'static str {
     macro_rules! m {
         ($($n:literal),*) => { match k { $($n => concat!("zones.created.", $n),)* _ => "zones.created.other" } };
     }
-    m!("utc", "unknown", "fixed", "posix", "tzif_real", "tzif_synth", "static")
+    m!("utc", "unknown", "fixed", "posix", "tzif_real", "tzif_synth", "tzif_named", "tzif_bundled", "static")
 }
